@@ -23,8 +23,48 @@ def main(path):
         r = sh([os.path.join(BIN, "fn_replay"), "namematch", vf], stdout=subprocess.PIPE, text=True)
         print(r.stdout[-3000:])
         return 1 if "DIFF" in r.stdout else 0
+    if kind in ("genc", "pml", "vhdl"):
+        return replay_transpiled(rp, wd, kind)
     print("cannot replay kind", kind)
     return 2
+
+
+def replay_transpiled(rp, wd, kind):
+    """one chart (and, for the executable back-ends, one event word) through the same pipeline as the campaign"""
+    import rebuild, campaign
+    cp = campaign.Campaign(kind, "replay")
+    c = rebuild.chart_from_value(rp["chart"])
+    cid = cp.add_chart(c)
+    if kind == "vhdl":
+        import vhdl
+        r = vhdl.run_vhdl(cp, wd)
+    else:
+        case = rp["case"]
+        words = [[".".join(w) for w in case["word"]]]
+        cp.add_cases(cid, [case.get("dm", "lua")], words, modes=(case.get("mode", "drip"),))
+        if kind == "pml":
+            import pml
+            r = pml.run_pml(cp, wd)
+        else:
+            import genc
+            r = genc.run_genc(cp, wd)
+    if r["failures"]:
+        print(r["failures"][0]["tail"][-2000:])
+        return 2
+    vs = [v for v in r["verdicts"] if "after-verdict" not in (v.get("extra") or [])]
+    if kind != "vhdl" and vs:
+        # the campaign accepts the documented ambiguities of the Recommendation
+        un, amb, sta = campaign.classify_c01(dict(r, workdir=wd), kind, prop=rp["property"])
+        others = [v for v in vs if v.get("why") not in ("atoms", "cfg", "data")]
+        vs = un + sta + others
+    if not vs and not r.get("transform_failed"):
+        print("ACCEPTED: the recorded case is a behaviour of the specification on the current tree")
+        return 0
+    for v in vs[:5]:
+        print("REJECTED:", json.dumps(v)[:1500])
+    for k, v in list(r.get("transform_failed", {}).items())[:2]:
+        print("REJECTED: transform failed", v)
+    return 1
 
 
 def replay_interp(rp, wd):
